@@ -191,6 +191,56 @@ fn message(plan: u64, k: usize, m: usize) -> Vec<u8> {
     (0..len).map(|j| mix(s + j as u64) as u8).collect()
 }
 
+/// Salts of signatures whose signing loop was driven through its retry branches: the same
+/// (key, message) is signed with several different zero-biased scripted streams (SignRng hook), each
+/// forcing norm and/or compression retries; all salts must differ - a retry must not replace the
+/// salt by something derived from the message or the key.
+#[derive(Clone, Debug, Serialize, Deserialize)]
+pub struct RetryCase {
+    n: usize,
+    key_base: u64,
+    m: u64,
+    streams: Vec<u64>,
+}
+
+pub struct RetrySalts;
+
+impl Sub for RetrySalts {
+    type Case = RetryCase;
+    fn name(&self) -> &'static str {
+        "salts_after_retries"
+    }
+    fn max_shrink_iters(&self) -> u32 {
+        16
+    }
+    fn strategy(&self, env: &Env) -> BoxedStrategy<RetryCase> {
+        let base = env.seed;
+        (prop_oneof![1 => Just(512usize), 1 => Just(1024usize)], 0u64..2, any::<u64>(), proptest::collection::vec(any::<u64>(), 4..8)).prop_map(move |(n, k, m, streams)| RetryCase { n, key_base: base ^ k, m, streams }).boxed()
+    }
+    fn check(&self, c: &RetryCase, st: &mut Stats) -> Result<(), Fail> {
+        let key = api::key(c.n, crate::util::seed32(mix(c.key_base ^ 0x5a17)));
+        let msg = c.m.to_le_bytes();
+        let mut seen: HashMap<Vec<u8>, (u64, u64, u64)> = HashMap::new();
+        for &stream in &c.streams {
+            let _ = falcon_rust::verif_hooks::take_sign_counters();
+            let rng = crate::util::BiasedRng::new(stream, 3000 + (stream % 1500) as u32, 400_000);
+            let sig = api::sign_with(&msg, &key.sk, Box::new(rng)).to_bytes();
+            let (norm, comp) = falcon_rust::verif_hooks::take_sign_counters();
+            let salt = sig[1..41].to_vec();
+            if let Some((other, on, oc)) = seen.insert(salt.clone(), (stream, norm, comp)) {
+                return Err(Fail::new("salt:repeated-after-retry", format!("Falcon-{}: the same message signed with two different randomness streams ({} and {}) carries the same salt {}; retries taken: {} norm / {} compression and {} / {}", c.n, other, stream, hex(&salt), on, oc, norm, comp)));
+            }
+            if norm + comp > 0 {
+                st.count("signatures_after_a_forced_retry");
+                st.nontrivial(&(c.n, c.m, stream));
+            }
+            st.count("scripted_signatures");
+        }
+        st.sample("retry_salts", || json!({"n": c.n, "message": c.m, "streams": c.streams.len()}));
+        Ok(())
+    }
+}
+
 const MACHINE_ORACLE: crate::machine::Oracle = crate::machine::Oracle::Salts;
 const MACHINE_OPS: usize = 60;
 
@@ -220,6 +270,7 @@ const META: Meta = Meta {
     rule: "proptest histories of sign calls with the real entropy path (no scripted randomness): 1-4 Falcon-512 and 1-2 Falcon-1024 keys, 1-4 messages per key (so (key, message) pairs repeat thousands of times; message no. 1 of every key is a large message of 4100-70000 bytes whose length is shared by all keys of the history), 6-12 threads started at the beginning and 6-12 fresh threads started mid-history (a third of the threads sign with the shared key object, a third with their own clone of it, a third with their own copy decoded from its bytes; clones and copies of the second wave are taken after thousands of signatures), and child processes (the harness re-executes itself) each signing one fixed (key, message) four times. Invariants over the whole history: all salts pairwise distinct (which includes: same (key, message) signed twice => different salts; first salts of fresh threads and fresh processes distinct), all signature byte strings distinct, every one of the 320 salt bit positions takes both values, every salt byte position passes a chi-square test against the uniform distribution on 256 values at p = 1e-12. Non-trivial = a history with a repeated (key, message) pair and more than one thread or a child process; the count adds each repeated pair, fresh thread and child process of such a history.",
     assumptions: &[
         "api_history sub-check: generated histories of 6-60 operations over four in-place key slots (load a fresh object, regenerate, clone, encode/decode, drop, sign and verify on this or a fresh thread; messages include the empty one and two large ones of equal length), interpreted against the obvious model with this property's invariant",
+        "salts_after_retries sub-check: the one place where C08 uses scripted signer randomness (zero-biased streams through the SignRng hook) - only to force the retry branches; with an honest signer the salt is then the first 40 bytes of each stream, distinct because the streams are",
         "'drawn from the OS-seeded generator' is observable only through these consequences: a generator with >= 2^64 states seeded badly but differently per process would pass",
         "false alarms: a collision of honest 320-bit salts has probability < 1e-80; the 40 chi-square tests together < 4e-11; a constant bit among >= 2000 honest salts < 1e-599",
         "birthday bound: N salts detect any salt source with fewer than about N^2/2 states with probability > 1/2 (50 000 salts per history: about 2^30 states; 400 000 in the thorough tier: 2^36)",
@@ -228,7 +279,7 @@ const META: Meta = Meta {
 
 pub fn run(env: &Env, replay: Option<&Path>) -> i32 {
     let mut report = Report::new();
-    let subs: [&dyn DynSub; 2] = [&SaltHistory, &ApiHistory];
+    let subs: [&dyn DynSub; 3] = [&SaltHistory, &ApiHistory, &RetrySalts];
     if let Some(p) = replay {
         if let Err(e) = replay_file(env, &subs, p, &mut report) {
             eprintln!("harness: {}", e);
@@ -239,6 +290,7 @@ pub fn run(env: &Env, replay: Option<&Path>) -> i32 {
     replay_corpus(env, &subs, &mut report);
     drive(env, &SaltHistory, env.tier.pick(2, 8), &mut report);
     drive(env, &ApiHistory, env.tier.pick(2_000, 80_000), &mut report);
+    drive(env, &RetrySalts, env.tier.pick(300, 20_000), &mut report);
     if env.tier == Tier::Thorough {
         // one long history on two threads only: 70 000 consecutive signatures per thread, past any
         // 16-bit per-thread call counter
